@@ -122,8 +122,8 @@ def parse_output(out, harnesses):
         m = re.search(r"Verification Time: ([0-9.]+)s", part)
         if m:
             hr.time_s = float(m.group(1))
-        for fm in re.finditer(r"Failed Checks: (.*)\n\s*File: \"([^\"]*)\", line (\d+), in (\S+)", part):
-            hr.failed_checks.append({"desc": fm.group(1).strip(), "file": fm.group(2), "line": int(fm.group(3)), "fn": fm.group(4)})
+        for fm in re.finditer(r"Failed Checks: ((?:(?!Failed Checks:).)*?)\n\s*File: \"([^\"]*)\", line (\d+), in (\S+)", part, re.S):
+            hr.failed_checks.append({"desc": re.sub(r"\s+", " ", fm.group(1)).strip(), "file": fm.group(2), "line": int(fm.group(3)), "fn": fm.group(4)})
         if "VERIFICATION:- SUCCESSFUL" in part:
             hr.status = "ok"
             hr.reason = ""
